@@ -60,14 +60,18 @@ func crossClass(col string, s crossSrc, g *valgen.GT) string {
 			}
 			return "merr"
 		}
-	} else {
-		if s.unsigned && n.Cmp(pow2(63)) >= 0 && !s.bareU64 {
-			return "merr"
-		}
-		if s.isString && !fitsS(8, n) {
-			return "merr"
-		}
 	}
+	// refusals of a number the varint column could hold (uint / named unsigned kinds above MaxInt64, strings outside
+	// int64): Marshal may refuse; when it accepts the value has to come back
+	may := w == 0 && ((s.unsigned && n.Cmp(pow2(63)) >= 0 && !s.bareU64) || (s.isString && !fitsS(8, n)))
+	c := crossTargetClass(w, n, g)
+	if c == "ok" && may {
+		return "refuse-or-same"
+	}
+	return c
+}
+
+func crossTargetClass(w uint, n *big.Int, g *valgen.GT) string {
 	for g.Name == "ptr" {
 		g = g.Elems[0]
 	}
@@ -182,7 +186,7 @@ func genCross(r *vh.Rng, tier string) []crossCase {
 				seen[g.String()] = true
 				cl := crossClass(col, s, g)
 				opw := "rtx"
-				if cl != "ok" && cl != "merr" {
+				if cl != "ok" && cl != "merr" && cl != "refuse-or-same" {
 					opw = "rt"
 				}
 				proto := 1 + r.Intn(5)
@@ -192,4 +196,49 @@ func genCross(r *vh.Rng, tier string) []crossCase {
 		}
 	}
 	return out
+}
+
+// expectShown: `ok <n in a destination of type g>` as valgen.Show prints it.
+func expectShown(n *big.Int, g *valgen.GT) string {
+	s := "ok "
+	for g.Name == "ptr" {
+		s += "ptr "
+		g = g.Elems[0]
+	}
+	switch g.Name {
+	case "k":
+		return s + "i " + g.Kind + " " + n.String()
+	case "nk":
+		return s + "ni " + g.Kind + " " + n.String()
+	case "big":
+		return s + "big " + n.String()
+	case "string":
+		return s + "s " + valgen.HexC([]byte(n.String()))
+	case "dur":
+		return s + "dur " + n.String()
+	}
+	return "?"
+}
+
+// execRtx: the real round trip; where the specification permits a refusal, `merr` and the right value are one answer.
+func execRtx(w []string) string {
+	p, t, v, g := valgen.ParseRT(w)
+	ans := valgen.RoundTrip(p, t, v, g)
+	src := crossSrc{}
+	switch v.Tag {
+	case "i", "ni":
+		src = crossSrc{n: v.Int, unsigned: !valgen.KindSigned(v.Kind), bareU64: v.Tag == "i" && v.Kind == "uint64"}
+	case "s":
+		n, ok := new(big.Int).SetString(string(v.Bytes), 10)
+		if !ok {
+			return ans
+		}
+		src = crossSrc{n: n, isString: true}
+	default:
+		return ans
+	}
+	if t.IsScalar() && crossClass(t.Name, src, g) == "refuse-or-same" && (ans == "merr" || ans == expectShown(src.n, g)) {
+		return "refuse-or-same"
+	}
+	return ans
 }
